@@ -38,8 +38,19 @@ def main(ck, tier, w, pid='C05'):
         b, payloads = scriptrep.concretise(u['items'], rng)
         conc.append((u, b, payloads))
     nviol = [0]
+    # evaluation is a function of the script alone: a second pass in another order (other neighbours on the evaluating thread)
+    # must give the same answers
+    perm = list(range(len(conc)))
+    rng.shuffle(perm)
     for coin in coins:
         outs = scriptrep.eval_scripts(coin, [c[1] for c in conc])
+        outs2 = scriptrep.eval_scripts(coin, [conc[k][1] for k in perm])
+        for pos, k in enumerate(perm):
+            if outs2[pos] != outs[k] and nviol[0] < 40:
+                nviol[0] += 1
+                ck.violation('%s script %s evaluates differently depending on what was evaluated before it: %s vs %s' % (
+                    coin, conc[k][1].hex()[:100], outs[k], outs2[pos]), {'coin': coin, 'script': conc[k][1].hex(), 'first': outs[k], 'second': outs2[pos],
+                                                                        'previous_script_in_second_pass': conc[perm[pos - 1]][1].hex() if pos else None, 'tags': []})
         for (u, b, payloads), got in zip(conc, outs):
             v = u[key]
             addr = scriptrep.expect_addr(v, payloads, u['items'], coin)
@@ -93,7 +104,8 @@ def main(ck, tier, w, pid='C05'):
     r0 = random.Random('%d-%s-e2e' % (seed, pid))
     for coin in (coins if not quick else coins[:2]):
         pick = r0.sample(conc, 60)
-        spks = [c[1] for c in pick if len(c[1]) < 10000]
+        # incl. scripts longer than 10 000 bytes: the pipeline must hand every script to the evaluator, whatever its size
+        spks = [c[1] for c in pick] + [x for x in extra if 10000 <= len(x) <= 21000][:5]
         txs_fn = lambda h, c, spks=spks: [btc.coinbase(h, None, outs=[{'val': 10 ** 8 + i, 'spk': s} for i, s in enumerate(spks[h::3])] or [{'val': 1, 'spk': b'\x51'}])]
         blocks = chains.std_chain(3, coin, txs_fn=txs_fn)
         d = datadir.simple_dir(w.sub('dd'), blocks, coin).write()
